@@ -49,6 +49,9 @@ theorem slotSpanOk_iff (minS maxS slot span : UInt64) :
   · rw [h2]; simpa [h2] using h
 
 example : slotSpanOk 10 10 10 0 = true ∧ slotSpanOk 11 11 10 0 = false ∧ slotSpanOk 42 43 10 32 = true := by decide
+/-- the defect repaired by `3768edd`: with span 1 (what the sync-committee validators passed) a message of the
+PREVIOUS slot is inside the window at any time of the slot; with span 0 it is not -/
+example : slotSpanOk 10 10 9 1 = true ∧ slotSpanOk 10 10 9 0 = false := by decide
 
 /-- `binary.LittleEndian.Uint64` is the specification's `bytes_to_uint64` -/
 theorem le64_eq_spec (b : ByteArray) : (le64 b).toNat = Spec.leNat b := by
